@@ -101,6 +101,8 @@ def py_cases(sw, spelling='dict'):
             if i: items = items[i % len(items):] + items[:i % len(items)]
             out.append(dict(items))
         return out
+    if spelling == 'bare' and len(sw['case_args']) == 1:
+        return [r[0] for r in rows]             # one argument: the bare values, not 1-tuples
     return [tuple(r) for r in rows]
 
 
